@@ -26,6 +26,7 @@ struct Inv {
     err_discard: Set<String>,     // .ok() / if let Ok(..) / Err(_) => on parser calls
     text_compare: Set<String>,    // comparisons of token spelling with string literals
     comma_loops: Set<String>,     // fns that consume Token::Comma themselves
+    make_word_uses: Set<String>,  // tokens built from a spelling (comparisons by text)
 }
 
 struct V<'a> {
@@ -125,6 +126,13 @@ impl<'a, 'ast> Visit<'ast> for V<'a> {
         }
         syn::visit::visit_arm(self, a);
     }
+    fn visit_expr_call(&mut self, c: &'ast syn::ExprCall) {
+        let f = norm(&c.func);
+        if f.ends_with("make_keyword") || f.ends_with("make_word") {
+            self.inv.make_word_uses.insert(format!("{}: {}({})", self.key(), f, trunc(&norm(&c.args), 50)));
+        }
+        syn::visit::visit_expr_call(self, c);
+    }
     fn visit_macro(&mut self, m: &'ast syn::Macro) {
         let name = m.path.segments.last().map(|s| s.ident.to_string()).unwrap_or_default();
         match name.as_str() {
@@ -213,6 +221,28 @@ pub fn run(repo: &Path, out: &Path) -> Result<(), String> {
             walk_items(&file.items, &rel, &mut inv_ast);
         }
     }
+    // entry-point pipeline: normalised bodies of the public constructors / routes
+    let mut pipeline: Vec<String> = vec![];
+    {
+        let src = fs::read_to_string(repo.join("src/parser/mod.rs")).map_err(|e| e.to_string())?;
+        let file = syn::parse_file(&src).map_err(|e| e.to_string())?;
+        let want = ["new", "with_recursion_limit", "with_options", "with_tokens_with_locations", "with_tokens", "try_with_sql", "parse_sql", "parse_statements", "index", "into_tokens"];
+        for it in &file.items {
+            if let syn::Item::Impl(im) = it {
+                if type_name(&im.self_ty) != "Parser" { continue; }
+                for ii in &im.items {
+                    if let syn::ImplItem::Fn(f) = ii {
+                        let n = f.sig.ident.to_string();
+                        if want.contains(&n.as_str()) {
+                            let b = &f.block;
+                            pipeline.push(format!("{n}: {}", norm(b)));
+                        }
+                    }
+                }
+            }
+        }
+        pipeline.sort();
+    }
     let mut panic_sites: Vec<String> = inv.panic_sites.clone();
     panic_sites.sort();
     // number duplicates so that a second identical site in the same fn is still a change
@@ -243,6 +273,8 @@ pub fn run(repo: &Path, out: &Path) -> Result<(), String> {
         "err_discard": inv.err_discard,
         "text_compare": inv.text_compare,
         "comma_loops": inv.comma_loops,
+        "make_word_uses": inv.make_word_uses,
+        "pipeline_bodies": pipeline,
         "nondeterminism": uses_nondeterminism,
     });
     write_if_changed(&out.join("inventory.json"), &serde_json::to_string_pretty(&cur).unwrap());
@@ -273,12 +305,12 @@ pub fn run(repo: &Path, out: &Path) -> Result<(), String> {
     let obl = serde_json::json!({
         "C02": mk(&["panic_sites", "panic_sites_ast", "raw_access"]),
         "C05": mk(&["err_discard"]),
-        "C07": mk(&["raw_access", "no_skip_callers"]),
-        "C08": mk(&["text_compare"]),
+        "C07": mk(&["raw_access", "no_skip_callers", "pipeline_bodies"]),
+        "C08": mk(&["text_compare", "make_word_uses"]),
         "C10": mk(&["location_literals", "twl_literals", "nondeterminism", "raw_access"]),
         "C12": mk(&["err_discard"]),
         "C13": mk(&["comma_loops"]),
-        "C14": mk(&["raw_access"]),
+        "C14": mk(&["raw_access", "pipeline_bodies"]),
         "C15": mk(&["type_id_uses", "dialect_of_uses"]),
     });
     write_if_changed(&out.join("obl_inventory.json"), &serde_json::to_string_pretty(&obl).unwrap());
